@@ -35,6 +35,7 @@ func main() {
 		verbose := fs.Bool("v", false, "verbose")
 		allf := fs.Bool("all", false, "all functions under contract")
 		noev := fs.Bool("no-evidence", false, "do not write evidence")
+		outDir := fs.String("out", "", "directory for evidence/replays instead of the verif dir (selftest)")
 		if len(os.Args) < 3 {
 			usage()
 		}
@@ -47,8 +48,22 @@ func main() {
 		if s := os.Getenv("VERIF_SEED"); s != "" {
 			seed, _ = strconv.Atoi(s)
 		}
-		opts := &eng.CheckOpts{Prop: prop, Tier: *tier, Seed: seed, Only: *only, KeepSMT: *keep, VerifDir: verifDir, RepoDir: repoDir, Verbose: *verbose, AllFuncs: *allf, NoEvidence: *noev || *only != ""}
+		opts := &eng.CheckOpts{Prop: prop, Tier: *tier, Seed: seed, Only: *only, KeepSMT: *keep, VerifDir: verifDir, RepoDir: repoDir, Verbose: *verbose, AllFuncs: *allf, NoEvidence: *noev || *only != "", OutDir: *outDir}
 		os.Exit(eng.RunCheck(opts))
+	case "selftest":
+		prop := ""
+		if len(os.Args) > 2 {
+			prop = os.Args[2]
+		}
+		exe, _ := os.Executable()
+		os.Exit(eng.RunSelftest(verifDir, repoDir, prop, exe))
+	case "warmup":
+		os.Exit(eng.Warmup(repoDir))
+	case "replay":
+		if len(os.Args) < 3 {
+			usage()
+		}
+		os.Exit(eng.RunReplayFile(os.Args[2], verifDir, repoDir))
 	case "ssa":
 		if len(os.Args) < 4 {
 			usage()
